@@ -14,7 +14,7 @@ from ..baseclass import ndpoly
 
 HEADER_REGEX = re.compile(
     HEADER_TEMPLATE.format(
-        version=r"\S+", names=r"(\S+)", keys=r"(\S+)", shape=r"(\S+)"
+        version=r"\S+", names=r"(\S+)", keys=r"(\S+)", shape=r"(\S*)"
     )
 )
 
@@ -105,9 +105,13 @@ def loadtxt(
         with open(fname) as src:
             header = src.readline()
     else:
+        position = fname.tell()
         header = fname.readline()
+        fname.seek(position)
     if isinstance(header, bytes):
         header = header.decode("utf-8")
+    if header.startswith(comments + "numpoly:"):
+        ndmin = 2
 
     array = numpy.loadtxt(
         fname,
@@ -129,7 +133,7 @@ def loadtxt(
         groups = match.groups()
         names = tuple(groups[0].split(","))
         keys = groups[1].split(",")
-        shape = [int(idx) for idx in groups[2].split(",")]
+        shape = [int(idx) for idx in groups[2].split(",") if idx]
         dtype = numpy.dtype([(key, array.dtype) for key in keys])
         struct = unstructured_to_structured(array, dtype)
         array = numpoly.polynomial(struct, names=names)
